@@ -2,6 +2,7 @@ import RdsProofs.Reach
 import RdsProofs.C15Proofs
 import RdsProofs.LinkProofs
 import RdsProofs.Reentrant
+import RdsProofs.ReentrantObs
 /-!
 # Property C15 — callbacks, user data and getters are pure observers
 
@@ -23,12 +24,24 @@ every history (as evaluated on the implementation's trace, where the harness als
 -- THEOREM: RDS.C15_nested_noop
 -- THEOREM: RDS.processH_noop
 -- THEOREM: RDS.mstepH_noop
+-- `C15_nested`: nested-call form of C15 — a callback that from inside the call changes nothing but the registration table and
+-- the user data (handler `h` with `erase (h e s).1 = erase s`) does not influence what is decoded; `handlerOfMode_observerOnly`:
+-- the harness modes `ri 1000..4999` are such handlers (non-vacuity).
+-- THEOREM: RDS.C15_nested
+-- THEOREM: RDS.processH_erase
+-- THEOREM: RDS.handlerOfMode_observerOnly
 namespace RDS
 
 /-- C15's event clause for every history and every next call -/
 theorem C15 (tb : Tabs) (h : EccOk tb) (ops : List Op) (op : Op) :
     chkC15 (monAfter tb.cfg ops) (recOf tb.cfg (run tb.cfg ops) op) = true :=
   chkC15_ok tb _ _ op (reach tb h ops).1 (reach tb h ops).2
+
+/-- C15 under nested calls: whatever the callbacks register, remove or set as user data from inside the call, the state after
+the call is, up to the observer table, the one the plain model reaches -/
+theorem C15_nested (cfg : Cfg) (h : Handler) (ho : h.ObserverOnly) (s : State) (op : Op) :
+    erase (stepH cfg h s op).1 = erase (step cfg s op).1 :=
+  stepH_erase cfg h ho s op
 
 /-- callbacks that only observe: the nested-call semantics of a call is the plain one -/
 theorem C15_nested_noop (cfg : Cfg) (s : State) (op : Op) : stepH cfg Handler.noop s op = step cfg s op :=
